@@ -350,6 +350,33 @@ func checkC06(r *Report, known []Finding) {
 		r.Violate("per-search state returned to the pool by a call that does not own it: "+f,
 			map[string]any{"fact": f, "explanation": "the caller keeps using the state after it was reset and handed to the pool; the next goroutine's getSearchState receives the same SearchState (Cx.State.Pool: the 'held' list would contain it twice)"}, false)
 	}
+	// ---- (a'') type-level facts: a shared object is not written during a search
+	rw, err := receiverWriteFacts("/repo")
+	if err != nil {
+		r.Violate("receiver-write fact extraction failed: "+err.Error(), map[string]any{"check": "go/ast fact extractor"}, true)
+		return
+	}
+	tw := r.Tie("source facts: no search-path method writes a field of its (shared) receiver or hands out a pointer to one")
+	tw.Cases += 200
+	r.Extra["receiver_write_facts"] = rw
+	for _, f := range rw {
+		site := f[:strings.Index(f, ":")]
+		typ := site[:strings.LastIndex(site, ".")]
+		if typ == "onepass.(*Builder)" {
+			continue // compile-time only: onepass.Build runs once inside Compile, before the Regex is shared
+		}
+		if typ == "prefilter.(*Tracker)" && !trackerConstructedByLibrary("/repo") {
+			continue // a stand-alone wrapper the library never constructs itself (checked: no NewTracker* call outside prefilter/tracker.go and tests)
+		}
+		tw.Disagreements++
+		attrs := map[string]string{"type": typ, "kind": "receiver-write"}
+		if kf := matchKnown(known, "C06", attrs); kf != nil {
+			r.Known(kf, map[string]string{"fact": f})
+			continue
+		}
+		r.Violate("a method on a search path writes state of its shared receiver: "+f,
+			map[string]any{"fact": f, "explanation": "the receiver is reachable from a compiled Regex that several goroutines may use at once; two concurrent calls race on the field"}, false)
+	}
 	// ---- (b) dynamic: race build
 	bin := filepath.Join(verifDir, ".build", "vcheck-race")
 	cmd := exec.Command("go", "build", "-race", "-tags", "verif", "-o", bin, "./cmd/vcheck")
@@ -457,4 +484,143 @@ func init() {
 		return false
 	}
 	exampleReplayers["concurrent"] = func(f Finding) bool { return true } // reproduced (or not) by the worker run of the same check
+}
+
+// receiverWriteFacts: "a shared object is not written during a search".  For every method (of a type declared in the search
+// packages) that is not configuration-time, every statement that writes through the receiver — recv.f = …, recv.f[i] = …,
+// recv.f.g = …, recv.f++, recv.f op= … — is a fact "pkg.(*T).method: writes recv.f".  Per-search state types (whose values are
+// owned by one search: *State, *Cache, builders used at compile time, sets, queues) are excluded by TYPE, not by call site.
+func receiverWriteFacts(repo string) ([]string, error) {
+	var facts []string
+	perSearch := func(t string) bool {
+		for _, suf := range []string{"State", "Cache", "Set", "Table", "Queue", "Stack", "Config", "Compiler", "Extractor", "Seq", "Iter", "Error", "Stats", "Pool", "Slots", "Buf", "Budget"} {
+			if strings.HasSuffix(t, suf) {
+				return true
+			}
+		}
+		return false
+	}
+	configTime := func(name string) bool {
+		for _, pre := range []string{"Set", "New", "new", "build", "Build", "Compile", "compile", "init", "Init", "Reset", "reset", "add", "Add", "With", "Unmarshal", "Longest", "ensure", "lazyInit"} {
+			if strings.HasPrefix(name, pre) {
+				return true
+			}
+		}
+		return false
+	}
+	for _, d := range []string{"meta", "dfa/lazy", "nfa", "dfa/onepass", "prefilter", "simd", "literal", "."} {
+		fs := token.NewFileSet()
+		pkgs, err := parser.ParseDir(fs, filepath.Join(repo, d), func(fi os.FileInfo) bool {
+			return !strings.HasSuffix(fi.Name(), "_test.go") && !strings.HasSuffix(fi.Name(), "_verif.go")
+		}, 0)
+		if err != nil {
+			return nil, err
+		}
+		for _, pkg := range pkgs {
+			for _, f := range pkg.Files {
+				for _, decl := range f.Decls {
+					fd, ok := decl.(*ast.FuncDecl)
+					if !ok || fd.Recv == nil || len(fd.Recv.List) == 0 || len(fd.Recv.List[0].Names) == 0 || fd.Body == nil {
+						continue
+					}
+					recv := fd.Recv.List[0].Names[0].Name
+					rt := ""
+					ptr := false
+					switch t := fd.Recv.List[0].Type.(type) {
+					case *ast.StarExpr:
+						ptr = true
+						if id, ok := t.X.(*ast.Ident); ok {
+							rt = id.Name
+						}
+					case *ast.Ident:
+						rt = t.Name
+					}
+					if !ptr || rt == "" || recv == "_" || perSearch(rt) || configTime(fd.Name.Name) {
+						continue
+					}
+					root := func(e ast.Expr) (string, bool) {
+						// the first selector below the receiver: recv.f…, or "" if the expression is not rooted at the receiver
+						var first string
+						for {
+							switch x := e.(type) {
+							case *ast.SelectorExpr:
+								first = x.Sel.Name
+								e = x.X
+							case *ast.IndexExpr:
+								e = x.X
+							case *ast.StarExpr:
+								e = x.X
+							case *ast.ParenExpr:
+								e = x.X
+							case *ast.SliceExpr:
+								e = x.X
+							case *ast.Ident:
+								return first, x.Name == recv && first != ""
+							default:
+								return "", false
+							}
+						}
+					}
+					fn := fmt.Sprintf("%s.(*%s).%s", pkg.Name, rt, fd.Name.Name)
+					seen := map[string]bool{}
+					ast.Inspect(fd.Body, func(n ast.Node) bool {
+						if _, lit := n.(*ast.FuncLit); lit {
+							return true
+						}
+						var lhs []ast.Expr
+						switch x := n.(type) {
+						case *ast.AssignStmt:
+							if x.Tok != token.DEFINE {
+								lhs = x.Lhs
+							}
+						case *ast.IncDecStmt:
+							lhs = []ast.Expr{x.X}
+						case *ast.CallExpr:
+							// &recv.f handed to a callee (other than sync/atomic): the callee writes the shared field through the pointer
+							if sel, ok := x.Fun.(*ast.SelectorExpr); ok {
+								if id, ok := sel.X.(*ast.Ident); ok && id.Name == "atomic" {
+									return false
+								}
+							}
+							for _, a := range x.Args {
+								if u, ok := a.(*ast.UnaryExpr); ok && u.Op == token.AND {
+									if fld, ok := root(u.X); ok && !seen["&"+fld] {
+										seen["&"+fld] = true
+										facts = append(facts, fn+": passes &"+recv+"."+fld)
+									}
+								}
+							}
+						}
+						for _, l := range lhs {
+							if fld, ok := root(l); ok && !seen[fld] {
+								seen[fld] = true
+								facts = append(facts, fn+": writes "+recv+"."+fld)
+							}
+						}
+						return true
+					})
+				}
+			}
+		}
+	}
+	sort.Strings(facts)
+	return facts, nil
+}
+
+
+// trackerConstructedByLibrary: is prefilter.NewTracker / NewTrackerWithConfig called anywhere in non-test library code
+// other than prefilter/tracker.go itself?
+func trackerConstructedByLibrary(repo string) bool {
+	found := false
+	filepath.Walk(repo, func(path string, fi os.FileInfo, err error) error {
+		if err != nil || fi.IsDir() || !strings.HasSuffix(path, ".go") || strings.HasSuffix(path, "_test.go") || strings.HasSuffix(path, "prefilter/tracker.go") {
+			return nil
+		}
+		b, e := os.ReadFile(path)
+		if e == nil && (bytes.Contains(b, []byte("NewTracker(")) || bytes.Contains(b, []byte("NewTrackerWithConfig("))) {
+			found = true
+		}
+		return nil
+	})
+	return found
 }
